@@ -65,8 +65,37 @@ def header_class(timecode=False):
     return SH.shadow_of(real) if SHADOW else real
 
 
+class _NoSocket:
+    def __getattr__(self, k):
+        raise OSError("no socket behind this client: the harness installs its own")
+
+
+class _SocketModuleForInit:
+    def socket(self, *a, **k):
+        return _NoSocket()
+
+    def __getattr__(self, k):
+        import socket as _s
+        return getattr(_s, k)
+
+
+def _real_init(c, timecode):
+    """run the repository's own Client.__init__ (socket, logger, header class stubbed) so that every attribute the current
+    source initialises exists with its real initial value; the modelled fields are overwritten by new_client()"""
+    saved = (C.socket, C.RTMALogger, C.get_header_cls)
+    C.socket = _SocketModuleForInit()
+    C.RTMALogger = lambda *a, **k: NullLogger()
+    C.get_header_cls = lambda *a, **k: header_class(timecode)
+    try:
+        with SH.NoTracing():
+            C.Client.__init__(c, 0, 0, timecode, "")
+    finally:
+        C.socket, C.RTMALogger, C.get_header_cls = saved
+
+
 def new_client(module_id=10, host_id=0, name="", timecode=False):
     c = object.__new__(C.Client)
+    _real_init(c, timecode)
     c._module_id = module_id
     c._host_id = host_id
     c._msg_count = 0
